@@ -79,10 +79,10 @@ def run_tlc(
     cfg = cfg or (module + ".cfg")
     meta = scratch_dir("fv_tlc_")
     big = workers != 1
-    jvm = ["java", "-Xss64m", f"-Xmx{heap}"]
+    jvm = ["java", "-Xss512m", f"-Xmx{heap}"]
     jvm += ["-XX:+UseParallelGC"] if big else ["-XX:+UseSerialGC", "-XX:TieredStopAtLevel=1"]
     if big:
-        jvm = ["java", "-Xss64m", f"-Xmx{heap}", "-XX:+UseParallelGC", "-XX:ParallelGCThreads=4"]
+        jvm = ["java", "-Xss512m", f"-Xmx{heap}", "-XX:+UseParallelGC", "-XX:ParallelGCThreads=4"]
     cmd = jvm + ["-cp", CP, "tlc2.TLC", "-workers", str(workers), "-metadir", meta]
     cmd += ["-noGenerateSpecTE", "-config", cfg]
     if simulate:
